@@ -16,12 +16,13 @@ TRANS_KINDS = ('basic', 'compound', 'orthogonal')
 COMPOSITE = ('compound', 'orthogonal')
 HISTORY = ('shallow', 'deep')
 
-D0 = {'incx': 0, 'sends': [], 'nots': [], 'tick': 0}
+D0 = {'incx': 0, 'sends': [], 'nots': [], 'tick': 0, 'nf': 0}
 
 
-def desc(incx=0, sends=(), nots=(), tick=0):
+def desc(incx=0, sends=(), nots=(), tick=0, nf=0):
+    """nf = 1: the fragment calls notify() before send() (the other order otherwise)."""
     return {'incx': incx, 'sends': [dict(ev=e, dl=d, par=p) for (e, d, p) in sends],
-            'nots': list(nots), 'tick': tick}
+            'nots': list(nots), 'tick': tick, 'nf': nf}
 
 
 def mk_trans(src, tgt, ev=0, prio=0, gk='none', ga=0, act=None, pre=0, post=0, inv=0):
@@ -258,6 +259,9 @@ def family_f2(rng, count, nmax=4, max_shared=3, max_eventless=2, prios=(-1, 0, 1
                     trans.append(mk_trans(s, tg, evid, rng.choice(prios), 'oracle' if guarded else 'none'))
         if g > 8 or len(trans) < 2:
             continue
+        plain = [t for t in trans if t['gk'] == 'none']
+        if plain and rng.random() < 0.12:       # the same transition declared twice (equal as objects)
+            trans.insert(rng.randrange(len(trans) + 1), dict(rng.choice(plain)))
         c['trans'] = trans
         c['events'] = [1, 2]
         assert wf(c)
@@ -436,6 +440,24 @@ def family_fanout(rng, count, max_oracle=2):
     return out
 
 
+def family_sametext(rng, count):
+    """Charts in which several transitions carry the very same guard text (`after(1)` / `idle(1)`, untraced) although
+    their values differ (the sources were entered / fired at different times) and are needed in one selection."""
+    out = []
+    while len(out) < count:
+        for c in family_f3(rng, 8, nmin=4, nmax=6, tmin=5, tmax=8, nev=2, max_oracle=1, time_guards=True, sends=False):
+            for t in c['trans']:
+                if t['gk'] in ('after', 'idle', 'afterp', 'idlep'):
+                    t['gk'], t['ga'] = t['gk'][:5].rstrip('p') + 'p', 1
+            by = {}
+            for t in c['trans']:
+                if t['gk'] in ('afterp', 'idlep'):
+                    by.setdefault(t['gk'], set()).add(t['src'])
+            if any(len(v) >= 2 for v in by.values()) and any(k == 'orthogonal' for k in c['kind']) and wf(c):
+                out.append(c)
+    return out[:count]
+
+
 def family_hist(rng, count, nmin=6, nmax=9, extra=6):
     """Larger charts with history states below orthogonal/compound ancestors; each transition has its
     own event.  Transitions into every history state from outside, out of its ancestors, and random ones."""
@@ -605,7 +627,9 @@ def family_f3(rng, count, nmin=5, nmax=8, tmin=4, tmax=10, nev=3, time_guards=Fa
                 if sends and rng.random() < 0.5:
                     snd.append((rng.randint(1, nev), rng.choice([0, 0, 1, 2]), rng.choice([0, 7])))
                 act = desc(incx=rng.choice([0, 1]), sends=snd,
-                           nots=[1] if rng.random() < 0.15 else [])
+                           nots=[1] if rng.random() < (0.35 if snd else 0.15) else [], nf=rng.choice([0, 1]))
+            if gk in ('after', 'idle') and rng.random() < 0.35:
+                gk += 'p'       # the bare text after(d) / idle(d): identical on several transitions
             t = mk_trans(s, tg, ev, rng.choice([0, 0, 0, 1, -1, 2, 10, -2]), gk, ga, act)
             if contracts and rng.random() < 0.4:
                 t['pre'], t['post'], t['inv'] = rng.choice([0, 1]), rng.choice([0, 1, 2]), rng.choice([0, 1])
@@ -704,15 +728,16 @@ def tla_seq(xs):
 
 
 def tla_desc(d):
+    d = dict(d, nf=d.get('nf', 0))      # charts recorded before the field existed
     if d == D0:
         return 'D0'
     sends = tla_seq('[ev |-> %d, dl |-> %d, par |-> %d]' % (s['ev'], s['dl'], s['par']) for s in d['sends'])
-    return '[incx |-> %d, sends |-> %s, nots |-> %s, tick |-> %d]' % (
-        d['incx'], sends, tla_seq(str(x) for x in d['nots']), d['tick'])
+    return '[incx |-> %d, sends |-> %s, nots |-> %s, tick |-> %d, nf |-> %d]' % (
+        d['incx'], sends, tla_seq(str(x) for x in d['nots']), d['tick'], d['nf'])
 
 
 def tla_trans(t):
-    if t['prio'] == 0 and t['gk'] == 'none' and t['act'] == D0 and not (t['pre'] or t['post'] or t['inv']):
+    if t['prio'] == 0 and t['gk'] == 'none' and dict(t['act'], nf=t['act'].get('nf', 0)) == D0 and not (t['pre'] or t['post'] or t['inv']):
         return 'T0(%d,%d,%d)' % (t['src'], t['tgt'], t['ev'])
     return ('[src |-> %d, tgt |-> %d, ev |-> %d, prio |-> %d, gk |-> "%s", ga |-> %d, act |-> %s, '
             'pre |-> %d, post |-> %d, inv |-> %d]') % (
@@ -734,7 +759,7 @@ def tla_chart(c):
 def tla_charts_module(name, charts):
     lines = ['---- MODULE %s ----' % name, 'EXTENDS Integers',
              '\\* generated by harness/gen_charts.py -- do not edit',
-             'D0 == [incx |-> 0, sends |-> <<>>, nots |-> <<>>, tick |-> 0]',
+             'D0 == [incx |-> 0, sends |-> <<>>, nots |-> <<>>, tick |-> 0, nf |-> 0]',
              'T0(s,t,e) == [src |-> s, tgt |-> t, ev |-> e, prio |-> 0, gk |-> "none", ga |-> 0, '
              'act |-> D0, pre |-> 0, post |-> 0, inv |-> 0]',
              'Charts == <<']
